@@ -21,6 +21,7 @@ import (
 	"errors"
 	"fmt"
 	"io"
+	"mime"
 
 	"github.com/drone/envsubst/v2"
 	"gopkg.in/yaml.v3"
@@ -35,6 +36,11 @@ var ErrUnsupportedKeyType = errors.New("unsupported key type")
 var ErrEmptyRuleSet = errors.New("empty rule set")
 
 func ParseRules(contentType string, reader io.Reader, envUsageEnabled bool) (*RuleSet, error) {
+	// the media type is case-insensitive and may come with parameters, like a charset
+	if mediaType, _, err := mime.ParseMediaType(contentType); err == nil {
+		contentType = mediaType
+	}
+
 	switch contentType {
 	case "application/json":
 		fallthrough
